@@ -227,6 +227,28 @@ def type_features(mod, t, _seen=None, depth=0):
     return out
 
 
+def min_element_count(mod, t, _depth=0, _seen=None):
+    """Lower bound of the number of collection elements in any value of the type (product of nested SIZE lower bounds)."""
+    _seen = _seen or set()
+    rt = t
+    if t.kind == "REF":
+        if t.ref in _seen or _depth > 12:
+            return 1
+        _seen = _seen | {t.ref}
+        rt = mod.lookup(t.ref)
+        return min_element_count(mod, rt, _depth + 1, _seen)
+    k = rt.kind
+    if k in ("SEQOF", "SETOF"):
+        lb = rt.size.lb() if rt.size is not None and rt.size.lb() is not None else 0
+        return max(1, lb * min_element_count(mod, rt.elem, _depth + 1, _seen)) if lb else 1
+    if k in ("SEQUENCE", "SET"):
+        return max([1] + [min_element_count(mod, m.type, _depth + 1, _seen) for m in rt.members
+                          if not (m.optional or m.has_default)]) if rt.members else 1
+    if k == "CHOICE":
+        return min([min_element_count(mod, m.type, _depth + 1, _seen) for m in rt.members] or [1])
+    return 1
+
+
 def is_plain(feats):
     """A type with none of the features that make a case non-trivial."""
     return not (feats & {"tag", "cons.value", "cons.size", "cons.from", "optional", "default", "nest>=2",
